@@ -450,14 +450,17 @@ func c15TokenEdit(c *core.Ctx, src []byte, ver string, r *core.Rand) {
 		return
 	}
 	w := core.W(src, ver)
-	before := obs.NewProv(src)
-	if p := printTo(pr.Root, before); p != nil {
-		return
+	if out, p := printString(pr.Root); p != nil || out != string(src) {
+		return // the unedited tree does not print as its source: C02's business (known findings live there)
 	}
 	toks := obs.SourceOrderTokens(pr.Root)
 	var cand []obs.TokRef
 	for _, tr := range toks {
-		if len(tr.Tok.Value) > 0 && tr.Tok.ID != token.T_OPEN_TAG && tr.Tok.ID != token.T_INLINE_HTML && !(tr.Tok.ID == token.T_ECHO && bytes.HasPrefix(tr.Tok.Value, []byte("<?"))) && !bytes.Contains(tr.Tok.Value, []byte("?>")) && !bytes.Contains(tr.Tok.Value, []byte("<?")) && !bytes.HasPrefix(tr.Tok.Value, []byte("#!")) {
+		v, ps := tr.Tok.Value, tr.Tok.Position
+		if len(v) == 0 || ps == nil || ps.StartPos < 0 || ps.EndPos > len(src) || ps.EndPos-ps.StartPos != len(v) || string(src[ps.StartPos:ps.EndPos]) != string(v) {
+			continue
+		}
+		if tr.Tok.ID != token.T_OPEN_TAG && tr.Tok.ID != token.T_INLINE_HTML && !bytes.Contains(v, []byte("?>")) && !bytes.Contains(v, []byte("<?")) && !bytes.HasPrefix(v, []byte("#!")) {
 			cand = append(cand, tr)
 		}
 	}
@@ -467,16 +470,6 @@ func c15TokenEdit(c *core.Ctx, src []byte, ver string, r *core.Rand) {
 	for try := 0; try < 3; try++ {
 		tr := cand[r.Intn(len(cand))]
 		old := tr.Tok.Value
-		ci := -1
-		for i, ch := range before.Chunks {
-			if len(ch.Data) > 0 && &ch.Data[0] == &old[0] && len(ch.Data) == len(old) {
-				ci = i
-			}
-		}
-		if ci < 0 {
-			c.Inconclusive("edited token's chunk not located in the original output")
-			continue
-		}
 		var nv []byte
 		mode := "same-length"
 		if r.Bool() {
@@ -513,16 +506,10 @@ func c15TokenEdit(c *core.Ctx, src []byte, ver string, r *core.Rand) {
 			c.Violation(p.Sig, "printer panicked after a token value was edited: "+p.Msg, w)
 			return
 		}
-		var pre, post strings.Builder
-		for _, ch := range before.Chunks[:ci] {
-			pre.Write(ch.Data)
-		}
-		for _, ch := range before.Chunks[ci+1:] {
-			post.Write(ch.Data)
-		}
+		pre, post := string(src[:tr.Tok.Position.StartPos]), string(src[tr.Tok.Position.EndPos:])
 		ok := false
-		for _, a := range []string{pre.String(), pre.String() + " "} {
-			for _, b := range []string{post.String(), " " + post.String()} {
+		for _, a := range []string{pre, pre + " "} {
+			for _, b := range []string{post, " " + post} {
 				if after == a+string(nv)+b {
 					ok = true
 				}
@@ -535,7 +522,7 @@ func c15TokenEdit(c *core.Ctx, src []byte, ver string, r *core.Rand) {
 		c.Add("token_value_edits", 1)
 		c.Cover("token_value_edit_modes", mode)
 		if !ok {
-			c.Violation("print|token-edit|"+mode+"|stale-or-misplaced-text", fmt.Sprintf("the value of %s was changed from %q to %q (position untouched); the printer does not print the original output with that text replaced: %s", slot, old, nv, obs.FirstDiff(pre.String()+string(nv)+post.String(), after)), w.With("edited_slot", slot))
+			c.Violation("print|token-edit|"+mode+"|stale-or-misplaced-text", fmt.Sprintf("the value of %s was changed from %q to %q (position untouched); the printer does not print the source with exactly that text replaced: %s", slot, old, nv, obs.FirstDiff(pre+string(nv)+post, after)), w.With("edited_slot", slot))
 			return
 		}
 	}
@@ -551,9 +538,8 @@ func c15StmtEdit(c *core.Ctx, src []byte, ver string, r *core.Rand) {
 		return
 	}
 	w := core.W(src, ver)
-	before := obs.NewProv(src)
-	if p := printTo(pr.Root, before); p != nil {
-		return
+	if out, p := printString(pr.Root); p != nil || out != string(src) {
+		return // C02's business
 	}
 	var cand []slotRef
 	for _, s := range exprSlots(pr.Root) {
@@ -589,22 +575,10 @@ func c15StmtEdit(c *core.Ctx, src []byte, ver string, r *core.Rand) {
 	}
 	toks := obs.SourceOrderTokens(s.node)
 	first, last := toks[0].Tok, toks[len(toks)-1].Tok
-	lo, hi := -1, -1
-	for i, ch := range before.Chunks {
-		if len(ch.Data) == 0 {
-			continue
-		}
-		if lo < 0 && len(first.Value) > 0 && &ch.Data[0] == &first.Value[0] {
-			lo = i
-		}
-		if len(last.Value) > 0 && &ch.Data[0] == &last.Value[0] {
-			hi = i + 1
-		}
-	}
-	if lo < 0 || hi <= lo {
-		c.Inconclusive("replaced statement's token chunks not located in the original output")
+	if first.Position == nil || last.Position == nil || first.Position.StartPos < 0 || last.Position.EndPos > len(src) || last.Position.EndPos <= first.Position.StartPos {
 		return
 	}
+	lo, hi := first.Position.StartPos, last.Position.EndPos
 	ownsOpenTag, ownsClose := false, false
 	for _, tr := range toks {
 		if tr.Tok.ID == token.T_OPEN_TAG || (tr.Tok.ID == token.T_ECHO && bytes.HasPrefix(tr.Tok.Value, []byte("<?"))) {
@@ -626,12 +600,8 @@ func c15StmtEdit(c *core.Ctx, src []byte, ver string, r *core.Rand) {
 		return
 	}
 	var pre, post strings.Builder
-	for _, ch := range before.Chunks[:lo] {
-		pre.Write(ch.Data)
-	}
-	for _, ch := range before.Chunks[hi:] {
-		post.Write(ch.Data)
-	}
+	pre.Write(src[:lo])
+	post.Write(src[hi:])
 	glue := []string{""}
 	cls := "in-php-mode"
 	if ownsOpenTag {
